@@ -201,7 +201,7 @@ def gen_exhaustive(ngor, caps, depth, limit):
                 for cs in menu_sel:
                     body = ",".join(cs).replace("V", str(v)).replace("W", str(v + 1))
                     # every resolution of Math.random that can matter for <= 2 ready cases
-                    for pick in (0, 11):
+                    for pick in ((0,) if "d" in cs else (0, 11)):
                         opts.append("sel_%d_%s" % (pick, body))
             elif d["loop"] == "1":
                 opts = ["next"]
@@ -315,10 +315,10 @@ def run(tier, seed):
     ex = []
     exinfo = []
     if thorough:
-        plan = [(2, [0], 9, 20000), (2, [1], 9, 20000), (2, [2], 8, 15000), (3, [0], 8, 20000),
-                (2, [0, 1], 7, 20000), (3, [0, 2], 6, 15000), (3, [1, 0], 6, 15000)]
+        plan = [(2, [0], 12, 30000), (2, [1], 12, 30000), (2, [2], 11, 30000), (3, [0], 11, 30000),
+                (2, [0, 1], 10, 25000), (3, [0, 2], 9, 20000), (3, [1, 0], 9, 20000)]
     else:
-        plan = [(2, [0], 6, 2500), (2, [1], 6, 2500), (3, [0, 1], 5, 2000)]
+        plan = [(2, [0], 9, 2500), (2, [1], 9, 2500), (3, [0, 1], 8, 2000)]
     for ngor, caps, depth, limit in plan:
         e, fd = gen_exhaustive(ngor, caps, depth, limit)
         ex += e
